@@ -286,13 +286,30 @@ impl Monitor for C08 {
                                 let mut ix2 = v.ix.clone();
                                 ix2.data = d2;
                                 let mut fork = v.pre.clone();
+                                // on the copy the owner can pay any amount and the vaults can take it (a deposit of nearly 2^64
+                                // must not be refused for lack of funds or for overflowing the vault's balance)
+                                let mut base_amt: std::collections::BTreeMap<Pubkey, u64> = std::collections::BTreeMap::new();
+                                for (k, amt) in [(c.a("token_owner_account_a"), u64::MAX), (c.a("token_owner_account_b"), u64::MAX), (x.pre_pool.vault_a, 0u64), (x.pre_pool.vault_b, 0u64)] {
+                                    if let Some(a) = fork.get(&k).cloned() {
+                                        if a.data.len() >= 72 && !base_amt.contains_key(&k) {
+                                            let mut dd = (*a.data).clone();
+                                            dd[64..72].copy_from_slice(&amt.to_le_bytes());
+                                            fork.put(k, rt::Account { lamports: a.lamports, data: std::rc::Rc::new(dd), owner: a.owner, executable: false });
+                                            base_amt.insert(k, amt);
+                                        }
+                                    }
+                                }
+                                let start = fork.clone();
                                 let r = rt::exec_tx_simple(&mut fork, &Tx { ixs: vec![ix2] });
+                                if r.ok && which == "fit" {
+                                    cov.probe("u64_boundary_largest_fitting_deposit_landed");
+                                }
                                 cov.eval(format!("u64_boundary|{}|side_b={}|{}|ok={}", name, side_b, which, r.ok));
                                 cov.probe("u64_boundary_forks");
                                 let (xa, xb) = model::liquidity_amounts(l, t, p, lo, hi, true);
                                 if r.ok {
-                                    let va = delta(v.pre, &fork, &x.pre_pool.vault_a);
-                                    let vb = delta(v.pre, &fork, &x.pre_pool.vault_b);
+                                    let va = delta(&start, &fork, &x.pre_pool.vault_a);
+                                    let vb = delta(&start, &fork, &x.pre_pool.vault_b);
                                     if BigUint::from(va.max(0) as u128) != xa || BigUint::from(vb.max(0) as u128) != xb {
                                         out.push(viol("token_amounts", ev.idx, format!("{} L={} on {}..{} at tick {} price {} succeeded and moved {} / {} into the vaults, but its exact rounded-up cost is {} / {} (u64 boundary probe)", name, l, lo, hi, t, p, va, vb, xa, xb)));
                                     }
